@@ -58,6 +58,7 @@ type harnessSpec struct {
 	maxPaths        int
 	needReach       []string // labels that must be reached on some path (vacuity guard)
 	desc            string
+	noNative        bool // harness uses engine-only stubs: no native replay
 }
 
 type harnessResult struct {
@@ -283,7 +284,7 @@ func (e *engine) explore(h *harnessSpec) *harnessResult {
 	q.push([]int{})
 	var mu sync.Mutex
 	var wg sync.WaitGroup
-	seenViol := map[string]bool{}
+	seenViol := map[string]int{}
 	for w := 0; w < e.opts.workers; w++ {
 		w := w
 		wg.Add(1)
@@ -314,8 +315,8 @@ func (e *engine) explore(h *harnessSpec) *harnessResult {
 				}
 				for _, v := range r.violations {
 					key := v.Kind + "|" + v.Msg + "|" + v.Pos
-					if !seenViol[key] {
-						seenViol[key] = true
+					if seenViol[key] < 25 {
+						seenViol[key]++
 						res.violations = append(res.violations, v)
 					}
 				}
@@ -332,7 +333,7 @@ func (e *engine) explore(h *harnessSpec) *harnessResult {
 					res.boundHit = true
 					stop = true
 				}
-				if len(res.violations) >= 8 {
+				if len(res.violations) >= 60 {
 					stop = true
 				}
 				mu.Unlock()
@@ -363,7 +364,12 @@ func (e *engine) explore(h *harnessSpec) *harnessResult {
 }
 
 func (e *engine) runPath(h *harnessSpec, fn *ssa.Function, prefix []int, solver *Solver) *run {
+	return e.runPathPinned(h, fn, prefix, solver, nil)
+}
+
+func (e *engine) runPathPinned(h *harnessSpec, fn *ssa.Function, prefix []int, solver *Solver, pin map[string]string) *run {
 	r := &run{
+		pin: pin,
 		e: e, h: h, solver: solver, prefix: prefix,
 		globals:  map[*ssa.Global]*value{},
 		initDone: map[*ssa.Package]bool{},
